@@ -10,4 +10,5 @@ SPEC = {
                 5: "records carry the session's own id/user/MAC/IP",
                 6: "octet counters are reported exactly through the low-word/gigaword split"},
     "driver_timeout": 2400,
+    "driver_args": ["-shard", "60"],
 }
